@@ -1,6 +1,7 @@
 import CelModel.Parser
 import CelModel.Props.C13
 import CelModel.Lemmas.ParserSteps
+import CelModel.Lemmas.ParserCalls
 /-!
 # C04 — parsing preserves precedence, associativity and grouping
 
@@ -10,7 +11,7 @@ All statements are proved; the one-step unfolding rules of the parser functions 
 precedence-level lifting lemmas are in `CelModel/Lemmas/ParserSteps.lean`.
 -/
 namespace Cel.Props.C04
-open Cel Cel.Lexer Cel.Parser Cel.Lemmas.ParserSteps
+open Cel Cel.Lexer Cel.Parser Cel.Lemmas.ParserSteps Cel.Lemmas.ParserCalls
 
 /-! ## chains of `&&` / `||` keep their operands in source order -/
 
@@ -231,7 +232,9 @@ theorem non_macro_names_untouched (f : String) (target : Option Expr) (args : Li
 
 /-! ## fully parenthesised rendering parses back to the same tree -/
 
-/-- source-level trees over the complete operator set -/
+/-- source-level trees over the complete expression syntax except macros (and message literals):
+the operators, member selection and indexing, function calls in both styles, list and map
+literals -/
 inductive Src where
   | ident (n : Str)
   | num (n : Nat)
@@ -241,6 +244,10 @@ inductive Src where
   | cond (c a b : Src)
   | index (a i : Src)
   | select (a : Src) (f : Str)
+  | call (f : Str) (args : List Src)                   -- `f(a, b, …)`
+  | mcall (t : Src) (f : Str) (args : List Src)        -- `t.f(a, b, …)`
+  | list (es : List Src)                               -- `[a, b, …]`
+  | mapLit (es : List (Src × Src))                     -- `{k: v, …}`
 deriving Repr, Inhabited
 
 /-- the binary operator tokens with their precedence class and function name -/
@@ -249,8 +256,31 @@ def binTable : List (String × String) :=
    ("==", "_==_"), ("!=", "_!=_"), ("in", "@in"), ("+", "_+_"), ("-", "_-_"), ("*", "_*_"),
    ("/", "_/_"), ("%", "_%_")]
 
+/-- the names `Macros.expand` reacts to (in some call shape) -/
+def macroNames : List String := ["has", "all", "exists", "exists_one", "existsOne", "map", "filter"]
+
+/-- a function name in a call: an identifier token that is not a keyword (as for `.ident`), and
+not the name of a macro — a call `has(x)`, `r.all(v, p)`, … is expanded (or rejected) by the
+parser instead of becoming a call node, see `macro_expansion_preserves_arguments` / `has_expansion`.
+The side condition excludes the seven names in every call shape (a little more than necessary:
+`has(a, b)` or `all(x)` are ordinary calls for the parser). -/
+def FnName (f : Str) : Prop :=
+  (f ≠ [] ∧ f ≠ "true".toList ∧ f ≠ "false".toList ∧ f ≠ "null".toList ∧ f ≠ "in".toList) ∧
+    String.ofList f ∉ macroNames
+
+instance (f : Str) : Decidable (FnName f) := by unfold FnName; infer_instance
+
+theorem FnName.notMacro {f : Str} (h : FnName f) (target : Option Expr) (args : List Expr) :
+    Macros.expand (String.ofList f) target args = .notMacro := by
+  apply non_macro_names_untouched
+  have := h.2
+  simp only [macroNames, List.mem_cons, List.mem_nil_iff, or_false, not_or] at this
+  exact this
+
+mutual
 /-- well-formed: identifiers are identifier tokens that are not keywords, numerals within
-range, binary nodes carry a (token, name) pair of the table -/
+range, binary nodes carry a (token, name) pair of the table, the function name of a call is an
+identifier that is not a macro name (`FnName`); all arguments, elements and entries well-formed -/
 def Src.WF : Src → Prop
   | .ident n => n ≠ [] ∧ n ≠ "true".toList ∧ n ≠ "false".toList ∧ n ≠ "null".toList ∧ n ≠ "in".toList
   | .num n => (n : Int) ≤ i64Max
@@ -260,7 +290,29 @@ def Src.WF : Src → Prop
   | .cond c a b => c.WF ∧ a.WF ∧ b.WF
   | .index a i => a.WF ∧ i.WF
   | .select a f => a.WF ∧ f ≠ []
+  | .call f args => FnName f ∧ Src.WFList args
+  | .mcall t f args => t.WF ∧ FnName f ∧ Src.WFList args
+  | .list es => Src.WFList es
+  | .mapLit es => Src.WFEntries es
+def Src.WFList : List Src → Prop
+  | [] => True
+  | a :: as => a.WF ∧ Src.WFList as
+def Src.WFEntries : List (Src × Src) → Prop
+  | [] => True
+  | (k, v) :: es => k.WF ∧ v.WF ∧ Src.WFEntries es
+end
 
+theorem Src.wfList_iff (as : List Src) : Src.WFList as ↔ ∀ a ∈ as, a.WF := by
+  induction as with
+  | nil => simp [Src.WFList]
+  | cons a as ih => simp [Src.WFList, ih]
+
+theorem Src.wfEntries_iff (es : List (Src × Src)) : Src.WFEntries es ↔ ∀ p ∈ es, p.1.WF ∧ p.2.WF := by
+  induction es with
+  | nil => simp [Src.WFEntries]
+  | cons p es ih => obtain ⟨k, v⟩ := p; simp [Src.WFEntries, ih, and_assoc]
+
+mutual
 /-- the tree a source-level tree denotes -/
 def Src.denote : Src → Expr
   | .ident n => .ident (String.ofList n)
@@ -271,9 +323,36 @@ def Src.denote : Src → Expr
   | .cond c a b => .call "_?_:_" [c.denote, a.denote, b.denote]
   | .index a i => .call "_[_]" [a.denote, i.denote]
   | .select a f => .select a.denote f false
+  | .call f args => .call (String.ofList f) (Src.denoteList args)
+  | .mcall t f args => .mcall (String.ofList f) t.denote (Src.denoteList args)
+  | .list es => .list (Src.denoteList es)
+  | .mapLit es => .map (Src.denoteEntries es)
+/-- `as.map denote` -/
+def Src.denoteList : List Src → List Expr
+  | [] => []
+  | a :: as => a.denote :: Src.denoteList as
+/-- `es.map fun (k, v) => (k.denote, v.denote)` -/
+def Src.denoteEntries : List (Src × Src) → List (Expr × Expr)
+  | [] => []
+  | (k, v) :: es => (k.denote, v.denote) :: Src.denoteEntries es
+end
 
-/-- fully parenthesised token rendering: every compound node is wrapped in parentheses, the
-operand of a prefix operator and the target of a suffix are parenthesised too -/
+theorem Src.denoteList_eq_map (as : List Src) : Src.denoteList as = as.map Src.denote := by
+  induction as with
+  | nil => simp [Src.denoteList]
+  | cons a as ih => simp [Src.denoteList, ih]
+
+theorem Src.denoteEntries_eq_map (es : List (Src × Src)) :
+    Src.denoteEntries es = es.map fun p => (p.1.denote, p.2.denote) := by
+  induction es with
+  | nil => simp [Src.denoteEntries]
+  | cons p es ih => obtain ⟨k, v⟩ := p; simp [Src.denoteEntries, ih]
+
+mutual
+/-- fully parenthesised token rendering: every compound operator node is wrapped in parentheses,
+the operand of a prefix operator and the target of a suffix (selection, index, method call) are
+parenthesised too; arguments, elements and entries are separated by commas, without a trailing
+comma (`sepList`, `sepEntries`: `CelModel/Lemmas/ParserCalls.lean`) -/
 def Src.render : Src → Toks
   | .ident n => [.ident n]
   | .num n => [.int (natToDec n)]
@@ -283,8 +362,42 @@ def Src.render : Src → Toks
   | .cond c a b => [.sym "("] ++ c.render ++ [.sym "?"] ++ a.render ++ [.sym ":"] ++ b.render ++ [.sym ")"]
   | .index a i => [.sym "(", .sym "("] ++ a.render ++ [.sym ")", .sym "["] ++ i.render ++ [.sym "]", .sym ")"]
   | .select a f => [.sym "(", .sym "("] ++ a.render ++ [.sym ")", .sym ".", .ident f, .sym ")"]
+  | .call f args => [.ident f, .sym "("] ++ sepList (Src.renderEach args) ++ [.sym ")"]
+  | .mcall t f args =>
+    [.sym "(", .sym "("] ++ t.render ++ [.sym ")", .sym ".", .ident f, .sym "("]
+      ++ sepList (Src.renderEach args) ++ [.sym ")", .sym ")"]
+  | .list es => [.sym "["] ++ sepList (Src.renderEach es) ++ [.sym "]"]
+  | .mapLit es => [.sym "{"] ++ sepEntries (Src.renderEntries es) ++ [.sym "}"]
+/-- `as.map render` -/
+def Src.renderEach : List Src → List Toks
+  | [] => []
+  | a :: as => a.render :: Src.renderEach as
+/-- `es.map fun (k, v) => (k.render, v.render)` -/
+def Src.renderEntries : List (Src × Src) → List (Toks × Toks)
+  | [] => []
+  | (k, v) :: es => (k.render, v.render) :: Src.renderEntries es
+end
 
-/-- number of compound nodes (the fuel needed is proportional to it) -/
+theorem Src.renderEach_eq_map (as : List Src) : Src.renderEach as = as.map Src.render := by
+  induction as with
+  | nil => simp [Src.renderEach]
+  | cons a as ih => simp [Src.renderEach, ih]
+
+theorem Src.renderEntries_eq_map (es : List (Src × Src)) :
+    Src.renderEntries es = es.map fun p => (p.1.render, p.2.render) := by
+  induction es with
+  | nil => simp [Src.renderEntries]
+  | cons p es ih => obtain ⟨k, v⟩ := p; simp [Src.renderEntries, ih]
+
+theorem Src.length_renderEach (as : List Src) : (Src.renderEach as).length = as.length := by
+  simp [Src.renderEach_eq_map]
+
+theorem Src.length_renderEntries (es : List (Src × Src)) : (Src.renderEntries es).length = es.length := by
+  simp [Src.renderEntries_eq_map]
+
+mutual
+/-- number of compound nodes, every argument / element / entry of a call or literal counting
+once more (the fuel needed is proportional to it) -/
 def sz : Src → Nat
   | .ident _ => 0
   | .num _ => 0
@@ -294,19 +407,69 @@ def sz : Src → Nat
   | .cond c a b => sz c + sz a + sz b + 1
   | .index a i => sz a + sz i + 1
   | .select a _ => sz a + 1
+  | .call _ args => szList args + args.length + 1
+  | .mcall t _ args => sz t + szList args + args.length + 1
+  | .list es => szList es + es.length + 1
+  | .mapLit es => szEntries es + es.length + 1
+def szList : List Src → Nat
+  | [] => 0
+  | a :: as => sz a + szList as
+def szEntries : List (Src × Src) → Nat
+  | [] => 0
+  | (k, v) :: es => sz k + sz v + szEntries es
+end
 
-theorem sz_le_render (t : Src) : sz t ≤ t.render.length := by
-  induction t <;> simp [sz, Src.render] <;> omega
+mutual
+theorem sz_le_render : (t : Src) → sz t ≤ t.render.length
+  | .ident _ => by simp [sz]
+  | .num _ => by simp [sz]
+  | .bin _ _ a b => by
+    have := sz_le_render a; have := sz_le_render b
+    simp [sz, Src.render]; omega
+  | .not a => by have := sz_le_render a; simp [sz, Src.render]; omega
+  | .neg a => by have := sz_le_render a; simp [sz, Src.render]; omega
+  | .cond c a b => by
+    have := sz_le_render c; have := sz_le_render a; have := sz_le_render b
+    simp [sz, Src.render]; omega
+  | .index a i => by
+    have := sz_le_render a; have := sz_le_render i
+    simp [sz, Src.render]; omega
+  | .select a _ => by have := sz_le_render a; simp [sz, Src.render]; omega
+  | .call _ args => by
+    have := szList_le args; have := length_sepTail_le (Src.renderEach args)
+    simp [sz, Src.render]; omega
+  | .mcall t _ args => by
+    have := sz_le_render t; have := szList_le args; have := length_sepTail_le (Src.renderEach args)
+    simp [sz, Src.render]; omega
+  | .list es => by
+    have := szList_le es; have := length_sepTail_le (Src.renderEach es)
+    simp [sz, Src.render]; omega
+  | .mapLit es => by
+    have := szEntries_le es; have := length_sepEntTail_le (Src.renderEntries es)
+    simp [sz, Src.render]; omega
+theorem szList_le : (as : List Src) → szList as + as.length ≤ (sepTail (Src.renderEach as)).length
+  | [] => by simp [szList]
+  | a :: as => by
+    have := sz_le_render a; have := szList_le as
+    simp [szList, Src.renderEach, sepTail]; omega
+theorem szEntries_le : (es : List (Src × Src)) →
+    szEntries es + es.length ≤ (sepEntTail (Src.renderEntries es)).length
+  | [] => by simp [szEntries]
+  | (k, v) :: es => by
+    have := sz_le_render k; have := sz_le_render v; have := szEntries_le es
+    simp [szEntries, Src.renderEntries, sepEntTail]; omega
+end
 
+mutual
 /-- every rendered tree is an atom: `parsePrimary` reads exactly it, whatever closes it -/
-theorem render_parsesAtom (t : Src) (h : t.WF) : ParsesAtom (20 * sz t) t.render t.denote := by
-  induction t with
-  | ident n => exact (parsesAtom_ident n).mono (by omega)
-  | num n => exact (parsesAtom_int _ _ (C13.int_literal_exact n h)).mono (by omega)
-  | bin sym nm a b iha ihb =>
+theorem render_parsesAtom : (t : Src) → t.WF → ParsesAtom (20 * sz t) t.render t.denote
+  | .ident n, _ => (parsesAtom_ident n).mono (by omega)
+  | .num n, h => (parsesAtom_int _ _ (C13.int_literal_exact n h)).mono (by omega)
+  | .bin sym nm a b, h => by
+    simp only [Src.WF] at h
     obtain ⟨hop, ha, hb⟩ := h
-    have iha := (iha ha).mono (f' := 20 * (sz a + sz b)) (by omega)
-    have ihb := (ihb hb).mono (f' := 20 * (sz a + sz b)) (by omega)
+    have iha := (render_parsesAtom a ha).mono (f' := 20 * (sz a + sz b)) (by omega)
+    have ihb := (render_parsesAtom b hb).mono (f' := 20 * (sz a + sz b)) (by omega)
     have e : 20 * sz (.bin sym nm a b) = 20 * (sz a + sz b) + 20 := by simp only [sz]; omega
     rw [e]
     simp only [Src.render, Src.denote]
@@ -327,33 +490,89 @@ theorem render_parsesAtom (t : Src) (h : t.WF) : ParsesAtom (20 * sz t) t.render
     · exact parsesAtom_mulOp iha ihb rfl
     · exact parsesAtom_mulOp iha ihb rfl
     · exact parsesAtom_mulOp iha ihb rfl
-  | not a iha =>
+  | .not a, h => by
+    simp only [Src.WF] at h
     have e : 20 * sz (.not a) = 20 * sz a + 20 := by simp only [sz]; omega
     rw [e]
-    exact parsesAtom_not (iha h)
-  | neg a iha =>
+    simp only [Src.render, Src.denote]
+    exact parsesAtom_not (render_parsesAtom a h)
+  | .neg a, h => by
+    simp only [Src.WF] at h
     have e : 20 * sz (.neg a) = 20 * sz a + 20 := by simp only [sz]; omega
     rw [e]
-    exact parsesAtom_neg (iha h)
-  | cond c a b ihc iha ihb =>
+    simp only [Src.render, Src.denote]
+    exact parsesAtom_neg (render_parsesAtom a h)
+  | .cond c a b, h => by
+    simp only [Src.WF] at h
     obtain ⟨hc, ha, hb⟩ := h
-    have ihc := (ihc hc).mono (f' := 20 * (sz c + sz a + sz b)) (by omega)
-    have iha := (iha ha).mono (f' := 20 * (sz c + sz a + sz b)) (by omega)
-    have ihb := (ihb hb).mono (f' := 20 * (sz c + sz a + sz b)) (by omega)
+    have ihc := (render_parsesAtom c hc).mono (f' := 20 * (sz c + sz a + sz b)) (by omega)
+    have iha := (render_parsesAtom a ha).mono (f' := 20 * (sz c + sz a + sz b)) (by omega)
+    have ihb := (render_parsesAtom b hb).mono (f' := 20 * (sz c + sz a + sz b)) (by omega)
     have e : 20 * sz (.cond c a b) = 20 * (sz c + sz a + sz b) + 20 := by simp only [sz]; omega
     rw [e]
+    simp only [Src.render, Src.denote]
     exact parsesAtom_cond ihc iha ihb
-  | index a i iha ihi =>
+  | .index a i, h => by
+    simp only [Src.WF] at h
     obtain ⟨ha, hi⟩ := h
-    have iha := (iha ha).mono (f' := 20 * (sz a + sz i)) (by omega)
-    have ihi := (ihi hi).mono (f' := 20 * (sz a + sz i)) (by omega)
+    have iha := (render_parsesAtom a ha).mono (f' := 20 * (sz a + sz i)) (by omega)
+    have ihi := (render_parsesAtom i hi).mono (f' := 20 * (sz a + sz i)) (by omega)
     have e : 20 * sz (.index a i) = 20 * (sz a + sz i) + 20 := by simp only [sz]; omega
     rw [e]
+    simp only [Src.render, Src.denote]
     exact parsesAtom_index iha ihi
-  | select a f iha =>
+  | .select a f, h => by
+    simp only [Src.WF] at h
     have e : 20 * sz (.select a f) = 20 * sz a + 20 := by simp only [sz]; omega
     rw [e]
-    exact parsesAtom_select (iha h.1) f
+    simp only [Src.render, Src.denote]
+    exact parsesAtom_select (render_parsesAtom a h.1) f
+  | .call f args, h => by
+    simp only [Src.WF] at h
+    have hI := renderEach_items args h.2
+    have hlen := Src.length_renderEach args
+    simp only [Src.render, Src.denote]
+    exact (parsesAtom_call hI f (h.1.notMacro _ _)).mono (by simp only [sz]; omega)
+  | .mcall t f args, h => by
+    simp only [Src.WF] at h
+    have hI := renderEach_items args h.2.2
+    have hlen := Src.length_renderEach args
+    have e : 20 * sz (.mcall t f args) = 20 * (sz t + szList args + args.length) + 20 := by
+      simp only [sz]; omega
+    rw [e]
+    simp only [Src.render, Src.denote]
+    exact parsesAtom_mcall (render_parsesAtom t h.1) hI (by omega) (by omega) f (h.2.1.notMacro _ _)
+  | .list es, h => by
+    simp only [Src.WF] at h
+    have hI := renderEach_items es h
+    have hlen := Src.length_renderEach es
+    simp only [Src.render, Src.denote]
+    exact (parsesAtom_list hI).mono (by simp only [sz]; omega)
+  | .mapLit es, h => by
+    simp only [Src.WF] at h
+    have hI := renderEntries_entries es h
+    have hlen := Src.length_renderEntries es
+    simp only [Src.render, Src.denote]
+    exact (parsesAtom_map hI).mono (by simp only [sz]; omega)
+/-- the rendered arguments / elements are read one by one -/
+theorem renderEach_items : (as : List Src) → Src.WFList as →
+    Items (20 * szList as + 8) (Src.renderEach as) (Src.denoteList as)
+  | [], _ => .nil
+  | a :: as, h => by
+    simp only [Src.WFList] at h
+    simp only [Src.renderEach, Src.denoteList]
+    exact .cons ((parsesAt0_of_atom (render_parsesAtom a h.1)).mono (by simp only [szList]; omega))
+      ((renderEach_items as h.2).mono (by simp only [szList]; omega))
+theorem renderEntries_entries : (es : List (Src × Src)) → Src.WFEntries es →
+    Entries (20 * szEntries es + 8) (Src.renderEntries es) (Src.denoteEntries es)
+  | [], _ => .nil
+  | (k, v) :: es, h => by
+    simp only [Src.WFEntries] at h
+    simp only [Src.renderEntries, Src.denoteEntries]
+    exact .cons ((parsesAt0_of_atom (render_parsesAtom k h.1)).mono (by simp only [szEntries]; omega))
+      ((parsesAt0_of_atom (render_parsesAtom v h.2.1)).mono (by simp only [szEntries]; omega))
+      ((renderEntries_entries es h.2.2).mono (by simp only [szEntries]; omega))
+end
 
 /-- ROUND TRIP (full parenthesisation): rendering any well-formed tree and parsing the tokens
 yields the tree it denotes — precedence, associativity and grouping are preserved for every
@@ -365,5 +584,41 @@ theorem parse_render_full (t : Src) (h : t.WF) : parseTop t.render = some t.deno
   rw [List.append_nil, show 40 * (t.render.length + 2) - 9 + 9 = 40 * (t.render.length + 2) by omega] at hE
   unfold parseTop
   rw [hE]
+
+/-! non-vacuity: `((f(a, (b + c))).g([d], {e: f}))[0]) * 2`, fully parenthesised -/
+section Examples
+/-- `f(a, b + c).g([d], {e: f})[0] * 2` -/
+def exCall : Src :=
+  .bin "*" "_*_"
+    (.index
+      (.mcall (.call "f".toList [.ident "a".toList, .bin "+" "_+_" (.ident "b".toList) (.ident "c".toList)])
+        "g".toList [.list [.ident "d".toList], .mapLit [(.ident "e".toList, .ident "f".toList)]])
+      (.num 0))
+    (.num 2)
+
+example : exCall.render =
+    [.sym "(", .sym "(", .sym "(", .sym "(", .sym "(",
+       .ident "f".toList, .sym "(", .ident "a".toList, .sym ",",
+         .sym "(", .ident "b".toList, .sym "+", .ident "c".toList, .sym ")", .sym ")",
+       .sym ")", .sym ".", .ident "g".toList, .sym "(",
+         .sym "[", .ident "d".toList, .sym "]", .sym ",",
+         .sym "{", .ident "e".toList, .sym ":", .ident "f".toList, .sym "}", .sym ")", .sym ")",
+       .sym ")", .sym "[", .int "0".toList, .sym "]", .sym ")",
+     .sym "*", .int "2".toList, .sym ")"] := by decide
+
+example : exCall.denote =
+    .call "_*_" [.call "_[_]" [.mcall "g" (.call "f" [.ident "a", .call "_+_" [.ident "b", .ident "c"]])
+      [.list [.ident "d"], .map [(.ident "e", .ident "f")]], .lit (.int 0)], .lit (.int 2)] := by
+  simp [exCall, Src.denote, Src.denoteList, Src.denoteEntries]
+
+example : exCall.WF := by
+  simp [exCall, Src.WF, Src.WFList, Src.WFEntries, FnName, macroNames, binTable,
+    i64Max]
+
+example : parseTop exCall.render = some exCall.denote :=
+  parse_render_full _ (by
+    simp [exCall, Src.WF, Src.WFList, Src.WFEntries, FnName, macroNames, binTable,
+      i64Max])
+end Examples
 
 end Cel.Props.C04
